@@ -281,6 +281,7 @@ type run struct {
 	Forged   bool          `json:"forged"`  // the document was built by the adversary under the all-zero file key
 	CBuf     int           `json:"cbuf"`
 	Pred     []int         `json:"pred"` // model prediction: released segments, term code (nil when not from the model)
+	neutral  bool          // a flip of the script instance undid an earlier one, or left the decoded MAC as it was: see apply
 }
 
 type outcome struct {
@@ -528,7 +529,31 @@ func parseScripts(out string) []script {
 		}
 		res = append(res, s)
 	}
-	return res
+	// TLC prints from several workers, in an order that differs from run to run: the scripts are put into a canonical order so that
+	// the seeded selection below (and everything drawn from rng after it) is a function of VERIF_SEED alone
+	keys := make([]string, len(res))
+	idx := make([]int, len(res))
+	for i := range res {
+		keys[i], idx[i] = scriptKey(res[i]), i
+	}
+	sort.SliceStable(idx, func(a, b int) bool { return keys[idx[a]] < keys[idx[b]] })
+	sorted := make([]script, len(res))
+	for i, j := range idx {
+		sorted[i] = res[j]
+	}
+	return sorted
+}
+
+// sameMAC reports whether two MAC lines decode, with the decoder the format prescribes, to the same MAC (a flip in the unused bits of
+// the last base64 digit is ignored by it).
+func sameMAC(a, b []byte) bool {
+	ma, ea := base64.StdEncoding.DecodeString(string(a))
+	mb, eb := base64.StdEncoding.DecodeString(string(b))
+	return ea == nil && eb == nil && bytes.Equal(ma, mb)
+}
+
+func scriptKey(s script) string {
+	return fmt.Sprintf("%d|%v|%03d|%v|%v|%d|%d", s.NA, s.LastFull, s.Ops, s.FailAt, s.WithData, s.PredRel, s.PredTerm)
 }
 
 var unwrapOutcome = []string{"succeeds", "other-key", "fails", "short-key", "zero-key-with-error", "other-key-with-error", "short-key"}
@@ -629,6 +654,9 @@ func apply(h *honest, s script, rng *rand.Rand, variant int) run {
 	prior := false
 	forged := false
 	var classes []string
+	neutral := false
+	var hdrStates [][]byte    // header before each flip in it
+	var cellFlips [][2][]byte // (cell before, cell after) of each flip in a segment
 	for _, op := range s.Ops {
 		classes = append(classes, opClass(op, units))
 		a, bb := op[1], op[2]
@@ -638,11 +666,30 @@ func apply(h *honest, s script, rng *rand.Rand, variant int) run {
 			forged = true
 		case 1, 2, 3:
 			ln := lineRanges(hdr)[op[0]-1]
+			before := append([]byte{}, hdr...)
 			pos := ln[0] + rng.Intn(ln[1]-ln[0])
 			hdr[pos] ^= 1 << uint(rng.Intn(8))
+			// the byte and bit are drawn, the model knows only the line: the flip may undo an earlier flip, or (MAC line) touch only
+			// bits the base64 decoder ignores.  Such an instance is not the mutation the script describes
+			for _, e := range hdrStates {
+				neutral = neutral || bytes.Equal(e, hdr)
+			}
+			if lm := lineRanges(hdr); op[0] == 3 && lm == lineRanges(before) && sameMAC(before[ln[0]:ln[1]], hdr[ln[0]:ln[1]]) {
+				neutral = true
+			}
+			hdrStates = append(hdrStates, before)
 		case 4:
 			u := unit{append([][]byte{}, units[a-1].cells...)}
-			u.cells[bb-1] = flipBit(u.cells[bb-1], rng)
+			before := u.cells[bb-1]
+			u.cells[bb-1] = flipBit(before, rng)
+			for _, f := range cellFlips {
+				if len(f[1]) > 0 && len(before) > 0 && &f[1][0] == &before[0] && bytes.Equal(f[0], u.cells[bb-1]) {
+					// the second flip hit the bit the first one hit (cells are identified by their backing array, so this holds
+					// wherever the cell has been moved or copied to in between): the model counts the cell as tampered, it is not
+					neutral = true
+				}
+			}
+			cellFlips = append(cellFlips, [2][]byte{before, u.cells[bb-1]})
 			units[a-1] = u
 		case 5:
 			hdr = hdr[:1+rng.Intn(len(hdr)-1)]
@@ -704,7 +751,7 @@ func apply(h *honest, s script, rng *rand.Rand, variant int) run {
 		}
 	}
 	r := run{Cipher: h.cipher, PlainLen: len(h.plain), Doc: doc.Bytes(), DocLen: doc.Len(), Unwrap: unwrap, Forged: forged, Prior: prior, Script: encref.NoErr(),
-		CBuf: []int{32 * 1024, segSize, 1000, segSize + 1}[variant%4], Pred: []int{s.PredRel, s.PredTerm}}
+		CBuf: []int{32 * 1024, segSize, 1000, segSize + 1}[variant%4], Pred: []int{s.PredRel, s.PredTerm}, neutral: neutral}
 	class := strings.Join(classes, "+")
 	if class == "" {
 		class = "unmodified"
@@ -1205,6 +1252,7 @@ func TestCheck(t *testing.T) {
 	var runs []run
 	mb := &batches{}
 	drift := 0
+	nNeutral := 0 // printed, not part of the evidence: it depends on the (random) file keys and is 0, 1 or 2 in a quick run
 	var driftSamples []any
 	classes := map[string]int{}
 	controlled := map[*honest]bool{}
@@ -1259,8 +1307,11 @@ func TestCheck(t *testing.T) {
 		mb.note(len(runs))
 		classes[strings.SplitN(r.Class, ":", 2)[0]]++
 		e.Nontrivial(r.Cipher + "|" + r.Desc + "|" + r.Class)
+		if r.Pred != nil && r.neutral {
+			nNeutral++
+		}
 		r.Doc = nil
-		if r.Pred != nil {
+		if r.Pred != nil && !r.neutral {
 			want := []string{"eof", "err", "decrypt-err", "pending"}[r.Pred[1]%4]
 			sameTerm := o.term == want
 			if r.Script.ErrAt >= 0 && want != "eof" && o.term != "eof" {
@@ -1393,8 +1444,8 @@ func TestCheck(t *testing.T) {
 			}
 		}
 	}
-	fmt.Printf("replayed %d runs of the real Decrypt (%d from model scripts, %d from byte-level sweeps) in %s; model/real outcome disagreements (drift): %d\n",
-		len(runs), nScriptRuns, len(runs)-nScriptRuns, time.Since(start).Round(time.Millisecond), drift)
+	fmt.Printf("replayed %d runs of the real Decrypt (%d from model scripts, %d from byte-level sweeps) in %s; model/real outcome disagreements (drift): %d; mutations that turned out to be no mutation (not compared with the prediction): %d\n",
+		len(runs), nScriptRuns, len(runs)-nScriptRuns, time.Since(start).Round(time.Millisecond), drift, nNeutral)
 
 	mc := <-mcDone
 	if !thorough {
@@ -1405,7 +1456,11 @@ func TestCheck(t *testing.T) {
 	e.Set("checker_cmd", mc.Cmd)
 	e.Set("drift", drift > 0)
 	e.Set("drift_runs", drift)
-	e.Set("drift_note", "drift = the real terminal class / released byte count differs from the symbolic model's prediction while the Contract still holds; the expected source is a bit flip in the unused trailing bits of the base64 MAC, which Go's lenient decoder ignores (the document then decrypts to exactly the original plaintext)")
+	e.Set("drift_note", "drift = the real terminal class / released byte count differs from the symbolic model's prediction while the Contract still holds. "+
+		"Two kinds of script instance are not compared with the prediction because the bytes the harness drew make the scripted mutation no mutation at all "+
+		"(which ones depends on the random file key, so they are counted on stdout only): two flips that hit the same bit and restore the document, and a flip in the "+
+		"MAC line that leaves the decoded MAC unchanged (unused trailing bits of the last base64 digit, which Go's lenient decoder ignores). "+
+		"Both still go through the Contract check and the TLC trace validation like every other run")
 	if len(driftSamples) > 0 {
 		e.Set("drift_samples", driftSamples)
 	}
